@@ -352,7 +352,7 @@ func (self Value) getByPath(pathes ...Path) (Value, []int) {
 					return errValue(meta.ErrRead, "GetByPath: read field length failed.", err), address
 				}
 				messageLen += Len
-				if Len < 0 || p.Read+Len > len(p.Buf) {
+				if Len < 0 || Len > len(p.Buf)-p.Read {
 					return errValue(meta.ErrRead, "GetByPath: invalid message length.", nil), address
 				}
 				// bound the search by the end of this message: a trailing repeated/map field must not run into the parent's next field
@@ -381,7 +381,7 @@ func (self Value) getByPath(pathes ...Path) (Value, []int) {
 					return errValue(meta.ErrRead, "GetByPath: read field length failed.", err), address
 				}
 				messageLen += Len
-				if Len < 0 || p.Read+Len > len(p.Buf) {
+				if Len < 0 || Len > len(p.Buf)-p.Read {
 					return errValue(meta.ErrRead, "GetByPath: invalid message length.", nil), address
 				}
 				// bound the search by the end of this message: a trailing repeated/map field must not run into the parent's next field
